@@ -6,7 +6,8 @@ from .. import monitor, mon_dropin, w_alg
 LEVEL = 'exploration'
 SHARDS = {'quick': 2, 'thorough': 16}
 BUDGET = {'quick': 60, 'thorough': 600}
-RULE = ('every UpgradedSignature returned by merge/embed/mask/forwards/signatures.signature/sigtools.signature during the '
+RULE = ('(also: plain parameters whose defaults compare equal to, without being, the ones handed over just before: True for 1, 2.0 for 2) '
+        'every UpgradedSignature returned by merge/embed/mask/forwards/signatures.signature/sigtools.signature during the '
         'algebra workloads over the extended universe (defaults, annotations, return annotations; eager and postponed), partial '
         'retrieval and discovery workloads is compared with a plain inspect.Signature twin built from the same data: str(), '
         'bind() and bind_partial() on every call shape, replace() contracts on the signature and each parameter (no override, joint overrides, every field alone incl. falsy values), and a '
